@@ -3,7 +3,7 @@
    self.items (object identity canonicalised by first appearance, list contents, wvalues), or
    that the operation raised.  check replays the history on the model and compares. *)
 From Coq Require Import List ZArith Bool.
-From DV Require Export Base.Corr Base.PyTuple Base.PyList Model.C08_Archive.
+From DV Require Export Base.Corr Base.PyTuple Base.PyList Model.C08_Archive Model.C08_Heap.
 Import ListNotations.
 Local Open Scope Z_scope.
 
@@ -12,8 +12,14 @@ Definition cop := op cind.
 (* observation of one state: keys, items *)
 Definition obs1 := option (list (list Z) * list cind).
 
+(* CArch: value-level model (the one the theorems are about).
+   CHeap: heap-level model; hops contains every in-place overwrite of a submitted object (HSet) and
+   every method call; obs is parallel to hops: None = the harness did not read the archive after that
+   step, Some o = it did (o = None: the call raised). nslots = number of user objects (locations
+   0..nslots-1, initially empty lists with an invalid fitness). *)
 Inductive case :=
-| CArch (kind : option Z) (sim : simkind) (ops : list cop) (obs : list obs1).
+| CArch (kind : option Z) (sim : simkind) (ops : list cop) (obs : list obs1)
+| CHeap (kind : option Z) (sim : simkind) (nslots : nat) (hops : list hop) (obs : list (option obs1)).
 
 Fixpoint index_of (x : Z) (l : list Z) (i : Z) : option Z :=
   match l with
@@ -54,9 +60,53 @@ Definition tags_of_model (t : list (option (hof cind))) : list Z :=
 Definition tags_of_obs (t : list obs1) : list Z :=
   flat_map (fun o => match o with Some (_, its) => map tag its | None => [] end) t.
 
+Fixpoint index_of_nat (x : nat) (l : list nat) (i : Z) : option Z :=
+  match l with
+  | [] => None
+  | y :: r => if Nat.eqb x y then Some i else index_of_nat x r (i + 1)
+  end.
+
+(* user objects keep their slot number (as -1-slot); objects allocated by the archive are numbered
+   by first appearance *)
+Fixpoint hcanon (nu : nat) (l : list nat) (seen : list nat) : list Z :=
+  match l with
+  | [] => []
+  | x :: r =>
+      if Nat.ltb x nu then (-1 - Z.of_nat x) :: hcanon nu r seen
+      else match index_of_nat x seen 0 with
+           | Some i => i :: hcanon nu r seen
+           | None => zlen seen :: hcanon nu r (seen ++ [x])
+           end
+  end.
+
+Definition obj_eqb (o : obj) (c : cind) : bool := zl_eqb (o_geno o) (geno c) && zl_eqb (o_wv o) (wv c).
+
+Definition hstate_eqb (sim : simkind) (m : option (heap * harch)) (o : option obs1) : bool :=
+  match o with
+  | None => true
+  | Some None => match m with None => true | Some _ => false end
+  | Some (Some (ks, its)) =>
+      match m with
+      | None => false
+      | Some st => let v := view st in zll_eqb (keys v) ks && all2 obj_eqb (items v) its
+      end
+  end.
+
+Fixpoint htags_model (t : list (option (heap * harch))) (obs : list (option obs1)) : list nat :=
+  match t, obs with
+  | Some (_, a) :: t', Some (Some _) :: obs' => hitems a ++ htags_model t' obs'
+  | _ :: t', _ :: obs' => htags_model t' obs'
+  | _, _ => []
+  end.
+Definition htags_obs (obs : list (option obs1)) : list Z :=
+  flat_map (fun o => match o with Some (Some (_, its)) => map tag its | _ => [] end) obs.
+
 Definition check (c : case) : bool :=
   match c with
   | CArch kind sim ops obs =>
       let t := trace cind wv (csimilar sim) kind empty ops in
       all2 state_eqb t obs && zl_eqb (canon (tags_of_model t)) (tags_of_obs obs)
+  | CHeap kind sim nslots hops obs =>
+      let t := h_trace (osimilar sim) kind (repeat null_obj nslots, mkharch [] []) hops in
+      all2 (hstate_eqb sim) t obs && zl_eqb (hcanon nslots (htags_model t obs) []) (htags_obs obs)
   end.
